@@ -17,6 +17,7 @@ def body(c):
                 raise tlc.TLCError("model lost its sensitivity: configuration %s (a repair switched off) no longer yields a counterexample" % name)
             sens.append("%s -> %s %s" % (name, r.violated[0], r.violated[1]))
     c.extra["model_sensitivity"] = sens
+    pfamily.protocol_models(c)
     # 2. code -> design model (conformance, drift) and design model -> code (replay of simulated behaviours)
     conf, gcfgs = pscen.conformance("C16", c.quick)
     pfamily.design_conformance(c, conf, seed=c.seed)
@@ -28,6 +29,7 @@ def body(c):
     traces, meta = pfamily.explore(S, seed=c.seed, workers=12)
     pfamily.account(c, traces, meta)
     pfamily.validate(c, traces, meta, "C16")
+    pfamily.protocol(c, meta, "C16")
     S2 = pscen.l2("C16", c.quick)
     t2, m2 = pfamily.explore_l2(S2, seed=c.seed, workers=12)
     pfamily.account(c, t2, m2)
